@@ -8,7 +8,10 @@ PID = "C06"
 ALPHA = ["$", "$$", "\"", "{", "}", ":", ".", "a", "b", "$merge:x", "$\"{a}\"", "$required", "$delete", "$match", "$output",
          "$env:HOME", "$repeat", "$replace", "$value", "$encode", "$decode", "$merge", "$FOO", "${X}", "$(cmd)", "$invert",
          "$parent", "x", "", "$\"", "$a", "$A", "$1", "a$b", "$$a", "$replace:a.b", "$\"{$env:HOME}\"", "$é", "é$"]
-PLAIN = ["$FOO", "${X}", "$(cmd)", "$A", "$1", "a$b", "x", "a", "", "$", "é$", "a.b", "{a}", "\"q\"", "$ x", "$_", "$-"]
+PLAIN = ["$FOO", "${X}", "$(cmd)", "$A", "$1", "a$b", "x", "a", "", "$", "é$", "a.b", "{a}", "\"q\"", "$ x", "$_", "$-",
+         # upper/mixed-case spellings of directives are plain data like any other $NAME
+         "$ENV:HOME", "$Env:HOME", "$ENV:NOSUCH", "$Env:", "$MERGE:a", "$Merge", "$Required", "$REQUIRED", "$Output", "$REPEAT", "$Delete",
+         "$Replace:a", "$Encode", "$Value", "$Match", "$Parent"]
 
 
 def rand_string(rng, pool):
